@@ -598,3 +598,35 @@ def monitor_dead_safe(ctx: Ctx):
             yield ctx.ob('C10.MONITOR-DEAD-SAFE', covered, fn, call, f'{src(call.func)} covered by a NoSuchProcess handler',
                          '' if covered else f'`{src(call)[:60]}` inspects a task process that may already have died (and been reaped) without '
                          'handling psutil.NoSuchProcess: the exception escapes the monitor update and run_tasks raises although only a task died')
+
+
+@rule('C11.WAIT-TIMEOUT', ['C11'])
+def wait_timeout(ctx: Ctx):
+    """The coordinator polls: runner.wait() is called with a finite positive timeout (dead worker processes are
+    only noticed at the start of a poll, so an unbounded wait never notices a killed last task)."""
+    for cl in roles.consumer_loops(ctx):
+        call = cl.loop.iter
+        t = kwarg(call, 'timeout_seconds', 0)
+        g = ctx.cfg(cl.fn)
+        e = t
+        if isinstance(t, ast.Name):
+            host = cl.fn
+            found = None
+            f = host
+            while f is not None and found is None:
+                for n in walk_local(f.node):
+                    if isinstance(n, ast.Assign) and len(n.targets) == 1 and isinstance(n.targets[0], ast.Name) and n.targets[0].id == t.id:
+                        found = n.value
+                f = f.parent
+            e = found
+
+        def finite(x):
+            if isinstance(x, ast.Constant):
+                return isinstance(x.value, (int, float)) and not isinstance(x.value, bool) and x.value > 0
+            if isinstance(x, ast.IfExp):
+                return finite(x.body) and finite(x.orelse)
+            return False
+        ok = e is not None and finite(e)
+        yield ctx.ob('C11.WAIT-TIMEOUT', ok, cl.fn, call, 'runner.wait(timeout_seconds=<finite positive constant>)',
+                     '' if ok else f'runner.wait is called with timeout `{src(e) if e is not None else "?"}`: with an unbounded wait a task process that is '
+                     'killed outright as the last executing task is never noticed and run_tasks hangs')
